@@ -3,7 +3,8 @@ import os
 
 from vf import env  # noqa
 
-SHARE_STATES = ["good", "good", "good", "missing", "destroyed", "light", "truncated-header", "field"]
+SHARE_STATES = ["good", "good", "good", "missing", "destroyed", "light", "truncated-header", "field", "hash-flip",
+                "truncated-anywhere"]
 # "field" is replaced in build() by "field:<name>=<symbolic value>": one length word or offset-table entry of the share
 # set to a boundary value (zero, one off, equal to a neighbouring offset, end of share, maximum)
 FIELD_NAMES = ["ueb-len", "ueb-len", "ueb-len", "data", "plaintext_hash_tree", "crypttext_hash_tree", "block_hashes", "share_hashes",
@@ -20,7 +21,25 @@ SERVER_FAULTS = ["none", "none", "none", "raise-all", "raise-nth", "disconnect-n
 def build_directed(rng):
     """Directed families (placements are given as RANKS in the permuted server order of the
     file's storage index; materialize() maps ranks to servers)."""
-    fam = rng.choice(["late-majority", "dup-failover", "field-edits", "fault-mid-download", "fault-mid-download"])
+    fam = rng.choice(["late-majority", "dup-failover", "dup-failover", "field-edits", "fault-mid-download",
+                      "fault-mid-download", "damaged-first", "damaged-first"])
+    if fam == "damaged-first":
+        # the servers a reader asks first hold damaged shares (a hash section flipped, the file cut short, a header field
+        # edited), also as the first of two copies of a share number; exactly k .. k+1 intact shares sit behind them
+        k = rng.randint(1, 3)
+        n = rng.randint(k + 1, k + 4)
+        nbad = rng.randint(1, n - k)
+        nservers = n + rng.randint(0, 2)
+        bad_state = lambda: rng.choice(["hash-flip", "hash-flip", "truncated-anywhere", "truncated-anywhere", "light",
+                                        _field_state(rng)])
+        placements = [(sh, sh, bad_state() if sh < nbad else "good") for sh in range(n)]
+        if rng.random() < .5 and nservers > n:
+            placements.append((n, 0, "good"))        # an intact second copy of the first damaged share number
+        faults = {r: {"kind": "none"} for r in range(nservers)}
+        segsize = rng.choice([64, 128, 1024, 4096])
+        size = segsize * rng.randint(1, 5) + rng.randint(0, 3)
+        return dict(k=k, n=n, segsize=segsize, size=max(56, size), nservers=nservers, layout=fam, by_rank=True,
+                    placements=placements, faults=faults)
     if fam == "fault-mid-download":
         # several segments; the servers holding the shares fail (error or lost connection) on their n-th block-level
         # read, i.e. somewhere between two segments or in the middle of one; the remaining servers hold nothing
@@ -84,7 +103,7 @@ def build_directed(rng):
 
 def build(rng, allow_hang=True, maxn=6):
     """Generate a case description (pure data)."""
-    if rng.random() < .18:
+    if rng.random() < .3:
         return build_directed(rng)
     n = rng.choice([1, 2, 3, 3, 4, 5, maxn])
     k = rng.randint(1, n)
@@ -119,7 +138,8 @@ def build(rng, allow_hang=True, maxn=6):
             if pl[1] in goodnums:
                 pl[2] = "good"
             elif pl[2] == "good":
-                pl[2] = rng.choice(["missing", "destroyed", "light", "truncated-header", _field_state(rng)])
+                pl[2] = rng.choice(["missing", "destroyed", "light", "truncated-header", _field_state(rng), "hash-flip",
+                                    "truncated-anywhere"])
     elif mode < .55:
         # fewer than k usable
         goodnums = set(rng.sample(range(n), rng.randint(0, k - 1))) if k > 0 else set()
@@ -234,6 +254,16 @@ def materialize(case, rng, seed, profile):
         if st == "destroyed":
             s0, e0 = sf.region("data")
             sf.write_at(s0, bytes((b ^ 0x5a) for b in sf.data()[s0:e0]))   # every block differs
+        elif st == "hash-flip":
+            # one bit inside one of the hash sections (block hashes, share hash chain, ciphertext hash tree, UEB)
+            name = rng.choice(["crypttext_hash_tree", "block_hashes", "share_hashes", "share_hashes", "uri_extension"])
+            s0, e0 = sf.region(name)
+            if e0 > s0:
+                sf.flip(rng.randrange(s0, e0), 1 << rng.randrange(8))
+        elif st == "truncated-anywhere":
+            # the share file ends somewhere inside its block data or one of the later sections
+            s0, _ = sf.region("data")
+            sf.truncate_data(rng.randrange(s0, max(s0 + 1, sf.data_len)))
         elif st == "light":
             for _ in range(rng.randint(1, 3)):
                 sf.flip(rng.randrange(sf.data_len), 1 << rng.randrange(8))
